@@ -460,9 +460,11 @@ def flags_conversion_total(ctx, report):
     class on anything that is not a member raises ValueError, as enum classes do.  None when no word raises."""
     if 'why' in _FLAGS_TOTAL:
         return _FLAGS_TOTAL['why']
-    from ..miniexec import Evaluator, Native, Raised, Unsupported
-    f = ctx.model.cls('ParserBinary').methods.get('parse_numeric_flags')
+    from ..miniexec import Evaluator, Native, Raised, Unsupported, class_call_hook
+    pb = ctx.model.cls('ParserBinary')
+    f = pb.resolve('parse_numeric_flags')
     report.touch(f)
+    hook = class_call_hook(pb, None, ctx.model)
 
     class Flags(Native):
         def __init__(self, members):
@@ -477,6 +479,8 @@ def flags_conversion_total(ctx, report):
             return v
 
     class State(Native):
+        _repo_class = pb       # helper methods of the parser class are evaluated from their own statements
+
         def __init__(self, wire):
             self._parsed_length, self._parsed_values, self.wire = 0, {}, wire
 
@@ -492,8 +496,8 @@ def flags_conversion_total(ctx, report):
             for w in words:
                 n += 1
                 me = State(w)
-                Evaluator({'self': me, 'name': 'f', 'size': size, 'flags_class': fl, 'shift_left': shift}, None,
-                          lambda name: int if name == 'int' else (_ for _ in ()).throw(Unsupported('free name ' + name))).function(f.node)
+                Evaluator({'self': me, 'name': 'f', 'size': size, 'flags_class': fl, 'shift_left': shift}, hook,
+                          hook.name_hook_for(f.module, lambda name: int if name == 'int' else (_ for _ in ()).throw(Unsupported('free name ' + name)))).function(f.node)
     except Raised as e:
         why = 'wire word %#x (%d byte(s), shift %d, members %s) raises %s' % (w, size, shift, [hex(m) for m in members], e.what)
     except Unsupported as e:
